@@ -177,6 +177,18 @@ def d3_reg2_acceptance(ctx):
         oks = len(slot) == 1 and pa.fa.val_rvalue(slot[0][2]["rv"], (slot[0][0], slot[0][1]))[2].endswith("::None") and \
             len(arm) == 1 and pa.fa.val_rvalue(arm[0][2]["rv"], (arm[0][0], arm[0][1])) == ("const", True, "bool")
         ctx.chk.ob("D3", "accepting the REG2 frees the slot and arms one broadcast round", oks, "", key="D3:accept-effects")
+        # a REG2 that is not accepted (short, or from another uplink) changes nothing: every store of handle_reg2 is on the accepted path
+        stray = []
+        for a in ctx.eff.writes_by_fn(f) if hasattr(ctx.eff, "writes_by_fn") else []:
+            pass
+        for bi, blk in enumerate(f.blocks):
+            if blk["cleanup"]:
+                continue
+            for si, st in enumerate(blk["stmts"]):
+                if st["k"] == "assign" and st["p"]["proj"] and any(e["k"] == "field" and e.get("adt") == R for e in st["p"]["proj"]) and not (cfg.dominates(bb, bi)):
+                    stray.append((st["p"]["proj"][-1].get("n"), st.get("loc")))
+        ctx.chk.ob("D3", "a REG2 that is not accepted leaves the manager untouched (no store outside the accepted path: a stray REG2 cannot move the REG1 deadline)", not stray,
+                   "stores outside the accepted path: %s" % stray[:4], key="D3:rejected-reg2-changes-nothing")
     else:
         ctx.chk.ob("D3", "handle_reg2 copies the id at one site", False, "%d" % len(cps), key="D3:copy-site")
     # broadcast flag: true only in handle_reg2, false only at the emission
@@ -259,6 +271,28 @@ def d6_reg_err_cancels(ctx):
 
 def d7_timeout(ctx):
     ctx.CONST("D7", "srtla_protocol::constants::REG2_TIMEOUT", 4)
+    ctx.WHO_WRITES("D7", R, "pending_timeout_at_ms", {DRV, R + "::build_reg1_for", R + "::handle_reg2", R + "::handle_reg_err", R + "::clear_pending_if_timed_out",
+                    R + "::start_probing", R + "::check_probing_complete"},   # start-up RTT probing borrows the field for its own 2 s wait: armed once before the
+                   # event loop (D7:probing-before-loop), cleared when probing completes (D7:probing-clear-only-while-probing); no REG1 target exists until then
+                   floor=7, allow_agg_in={R + "::new"})
+    cp = ctx.w.fn(R + "::check_probing_complete")
+    if cp is not None:
+        cpa = ctx.pa(cp)
+        okc = True
+        nst = 0
+        from ..ctx import bool_branches
+        ccfg = ctx.cfg(cp)
+        brs = bool_branches(cp, cpa.fa, lambda v: any(is_field(x, "probing_state", R) for x in walk(v)))
+        for (bb, si, st) in field_stores(cp, R, "pending_timeout_at_ms"):
+            nst += 1
+            # (the body stores probing_state := Complete right before, which retires the atom: tie the store to the taken branch)
+            okc = okc and any((ccfg.dominates(tt, bb) and not ccfg.dominates(ff, bb)) or (ccfg.dominates(ff, bb) and not ccfg.dominates(tt, bb)) for (sb, tt, ff) in brs)
+        ctx.chk.ob("D7", "check_probing_complete touches the deadline field only after its own `still probing` test", okc and nst >= 1, "", key="D7:probing-clear-only-while-probing")
+    sp = ctx.w.fn(R + "::start_probing")
+    if sp is not None:
+        callers = [(c, bb) for (c, bb, t) in ctx.eff.callers_of(sp.id) if "::tests" not in c.stable]
+        ok = len(callers) == 1 and not ctx.cfg(callers[0][0]).in_cycle(callers[0][1])
+        ctx.chk.ob("D7", "start_probing (which borrows the deadline field) runs once, outside the event loop", ok, "%s" % [sname(c.stable) for (c, bb) in callers], key="D7:probing-before-loop")
     f = ctx.fn(R + "::clear_pending_if_timed_out", "D7")
     if f:
         pa = ctx.pa(f)
